@@ -48,7 +48,12 @@ MANIFEST = {
             'simulator and are not affected. '
             'In the simulator the tape of to_bits / trailing_zeros is genuinely distributed and not observable: there the model is '
             'evaluated on an arbitrary no-wrap tape (the result is tape independent by the theorems; for trailing_zeros only the '
-            'specified prefix up to the lowest 1 is compared). np_add_bits / np_to_bits / np_find are not covered; np_unit_vector only by the index-reuse stream.',
+            'specified prefix up to the lowest 1 is compared). np_add_bits / np_to_bits are not covered; np_unit_vector only by the index-reuse stream; np_find (NumPy sibling of '
+            'find, no separate Coq model) is run at m=1 under the NumPy interpreter on 1-D/2-D/3-D arrays, every axis, scalar and '
+            'array-valued public/secret s, the forms it supports (default, int f, cs_f int/pow/tuple, all e), against an oracle '
+            'built from the list find semantics along the axis; sampled lanes are also compared with the Coq find model. Open: '
+            'F-C30-6 np_find result axes swapped for ndim >= 3 and axis < ndim-2; F-C30-7 np_find raises for f together with '
+            'cs_f and for tuple-valued f with e.',
     'technique': 'Coq proof by induction over the recursion structure + vm_compute correspondence on shared tapes + exhaustive small-domain oracle',
 }
 
@@ -200,6 +205,7 @@ def run(ctx):
         mpc.run(mpc.shutdown())
     _sim_streams(ctx, rng, st)
     _np_stream(ctx, st)
+    _np_find_stream(ctx, st)
     _evaluate(ctx, st, ok)
 
 
@@ -1216,6 +1222,192 @@ def _np_stream(ctx, st):
             st.violation('np_unit_vector-wrong %s' % name, dict(key, got=u1, want=e_a))
         elif a_after != float(v) or u2 != e_a:
             st.violation('np_unit_vector-mutates-index %s' % name, dict(key, first=u1, a_after=a_after, second=u2, want=e_a))
+
+
+NP_FIND_CODE = r'''
+import sys, json, random
+seed, scale = int(sys.argv[1]), int(sys.argv[2])
+sys.argv = ['np', '--no-log']
+from mpyc.runtime import mpc
+import numpy as np
+mpc.run(mpc.start())
+secint = mpc.SecInt(16)
+rng = random.Random(seed)
+
+FORMS = {   # python kwargs, reference f (values as lists), negative e allowed
+    'none': ({}, lambda i: [i], True),
+    'f_int': ({'f': lambda i: 3 * i + 1}, lambda i: [3 * i + 1], True),
+    'cs_int': ({'cs_f': lambda b, i: i + b}, lambda i: [i], True),
+    'cs_pow': ({'cs_f': lambda b, i: (b + 1) * 2**i}, lambda i: [2**i], False),
+    'cs_tuple': ({'cs_f': lambda b, i: (i + b, (b + 1) * 2**i)}, lambda i: [i, 2**i], False),
+}
+def e_forms(n):
+    return {'default': ({}, n), 'raw': ({'e': None}, None), 'minus1': ({'e': -1}, -1),
+            'len-1': ({'e': 'a.shape[axis]-1'}, n - 1), 'val': ({'e': n + 3}, n + 3)}
+
+def opn(v):
+    if isinstance(v, (tuple, list)):
+        return [opn(u) for u in v]
+    if hasattr(v, 'share') or type(v).__name__.startswith('Array'):
+        r = mpc.run(mpc.output(v))
+        return np.array(r.tolist() if hasattr(r, 'tolist') else r)
+    return np.array(v)
+
+def lanes_of(A, S, axis, how):
+    # how = 'move': the documented result shape (axis removed); 'swap': axis exchanged with the last one
+    Am = np.moveaxis(A, axis, -1) if how == 'move' else np.swapaxes(A, axis, -1)
+    if hasattr(S, 'shape') and S.shape:
+        Se = np.expand_dims(S, axis)
+        Sm = (np.moveaxis(Se, axis, -1) if how == 'move' else np.swapaxes(Se, axis, -1))[..., 0]
+    else:
+        Sm = np.broadcast_to(np.array(int(S)), Am.shape[:-1])
+    return Am, Sm
+
+def want_arrays(A, S, axis, how, ref_f, e_val, raw):
+    Am, Sm = lanes_of(A, S, axis, how)
+    k = len(ref_f(0))
+    nf = np.zeros(Am.shape[:-1], dtype=object)
+    ys = [np.zeros(Am.shape[:-1], dtype=object) for _ in range(k)]
+    for idx in np.ndindex(*Am.shape[:-1]):
+        lane = [int(v) for v in Am[idx]]
+        sv = int(Sm[idx])
+        ix = lane.index(sv) if sv in lane else None
+        nf[idx] = 0 if ix is not None else 1
+        val = ref_f(ix) if ix is not None else ref_f(len(lane) if raw else e_val)
+        for j in range(k):
+            ys[j][idx] = val[j]
+    return nf, ys
+
+def same(r, w):
+    r = np.array(r, dtype=object)
+    return r.shape == w.shape and bool((r == w).all())
+
+out = []
+shapes = [(5,), (1,), (3, 3), (2, 4), (4, 2), (2, 3, 4), (3, 3, 3), (2, 2, 3), (3, 1, 2)]
+for shape in shapes:
+    nd = len(shape)
+    for axis in range(-nd, nd):
+        n = shape[axis]
+        rem = tuple(d for i, d in enumerate(shape) if i != axis % nd)
+        skinds = ['int0', 'int1', 'sec', 'arr_pub', 'arr_sec', 'nb_int', 'nb_sec']
+        for skind in skinds:
+            for rep_ in range(scale):
+                bits = not skind.startswith('nb')
+                if bits:
+                    A = np.array([rng.randrange(2) for _ in range(int(np.prod(shape)))]).reshape(shape)
+                    if rng.random() < 0.3:
+                        A = np.ones(shape, dtype=int) * rng.randrange(2)
+                else:
+                    A = np.array([rng.randrange(-2, 3) for _ in range(int(np.prod(shape)))]).reshape(shape)
+                if skind.startswith('arr'):
+                    S = np.array([rng.randrange(2) for _ in range(int(np.prod(rem)))]).reshape(rem)
+                    s = S if skind == 'arr_pub' else secint.array(S)
+                elif skind in ('int0', 'int1'):
+                    S = np.array(int(skind[-1])); s = int(S)
+                elif skind == 'sec':
+                    S = np.array(rng.randrange(2)); s = secint(int(S))
+                else:
+                    S = np.array(rng.randrange(-2, 3)); s = int(S) if skind == 'nb_int' else secint(int(S))
+                while True:
+                    fn, en = rng.choice(list(FORMS)), rng.choice(list(e_forms(n)))
+                    ev = e_forms(n)[en][1]
+                    if ev is None or ev >= 0 or FORMS[fn][2]:
+                        break
+                kw = dict(FORMS[fn][0]); kw.update(e_forms(n)[en][0])
+                if not bits:
+                    kw['bits'] = False
+                ref_f = FORMS[fn][1]
+                raw = en == 'raw'
+                key = {'fn': 'np_find', 'shape': list(shape), 'axis': axis, 's': skind, 'form': fn, 'e': en,
+                       'A': A.tolist(), 'S': S.tolist()}
+                rec = {'key': key, 'sig': None, 'lanes': []}
+                try:
+                    r = mpc.np_find(secint.array(A), s, axis=axis, **kw)
+                    if raw:
+                        nf_got, y = r
+                        nf_got = opn(nf_got)
+                    else:
+                        y = r
+                    multi = len(ref_f(0)) > 1
+                    ys_got = [opn(u) for u in y] if multi else [opn(y)]
+                    verdict = None
+                    for how in ('move', 'swap'):
+                        nf_w, ys_w = want_arrays(A, S, axis, how, ref_f, ev, raw)
+                        okk = all(same(g, w) for g, w in zip(ys_got, ys_w)) if not raw else True
+                        if raw:
+                            # raw mode: nf everywhere; f(ix) only where found
+                            okk = same(nf_got, nf_w) and all(
+                                np.array(g, dtype=object).shape == w.shape and
+                                bool(((np.array(g, dtype=object) == w) | (nf_w == 1)).all()) for g, w in zip(ys_got, ys_w))
+                        if okk:
+                            verdict = how
+                            break
+                    if verdict == 'move':
+                        Am, Sm = lanes_of(A, S, axis, 'move')
+                        idxs = list(np.ndindex(*Am.shape[:-1]))
+                        for idx in rng.sample(idxs, min(2, len(idxs))):
+                            got_l = [int(g[idx]) if g.shape else int(g) for g in ys_got]
+                            rec['lanes'].append([[int(v) for v in Am[idx]], int(Sm[idx]), skind in ('sec', 'arr_sec', 'nb_sec'),
+                                                 bits, en, fn,
+                                                 ['raw', int(nf_got[idx]) if nf_got.shape else int(nf_got), got_l] if raw else ['val', got_l]])
+                    elif verdict == 'swap':
+                        rec['sig'] = 'np_find-result-axes-swapped ndim=%d axis=%d' % (nd, axis % nd)
+                        rec['detail'] = {'got_shape': list(np.array(ys_got[0]).shape), 'want_shape': list(rem)}
+                    else:
+                        rec['sig'] = 'np_find-wrong s=%s axis=%d ndim=%d' % (skind, axis, nd)
+                        rec['detail'] = {'got': [np.array(g).tolist() for g in ys_got]}
+                except Exception as ex:
+                    rec['sig'] = 'np_find-raises %s s=%s axis=%d ndim=%d' % (type(ex).__name__, skind, axis, nd)
+                    rec['detail'] = {'exc': str(ex)[:200]}
+                out.append(rec)
+# argument forms np_find does not handle (the list version does)
+A = np.array([[1, 1, 0, 1], [1, 1, 1, 1]])
+for name, kw in [('f-and-cs_f', {'f': lambda i: (2 * i,), 'cs_f': lambda b, i: (2 * (i + b),), 'e': None}),
+                 ('tuple-f', {'f': lambda i: (i, i * i)})]:
+    rec = {'key': {'fn': 'np_find', 'form': name, 'A': A.tolist()}, 'sig': None, 'lanes': []}
+    try:
+        opn(mpc.np_find(secint.array(A), 0, **kw))
+    except Exception as ex:
+        rec['sig'] = 'np_find-%s raises %s' % (name, type(ex).__name__)
+        rec['detail'] = {'exc': str(ex)[:200]}
+    out.append(rec)
+mpc.run(mpc.shutdown())
+print('RESULT ' + json.dumps(out))
+'''
+
+
+def _np_find_stream(ctx, st):
+    """np_find (NumPy sibling of find): every axis of 1-D/2-D/3-D arrays, scalar and array-valued s, public and secret,
+    the argument forms it supports; oracle = the list find semantics along the axis; sampled lanes go to the Coq model."""
+    import os, subprocess, json
+    from lib.core import PYNP, REPO
+    if not os.path.exists(PYNP):
+        ctx.notes.append('np_find stream skipped: no NumPy interpreter at %s' % PYNP)
+        return
+    env = dict(os.environ, PYTHONPATH=REPO, PYTHONHASHSEED='0')
+    p = subprocess.run([PYNP, '-c', NP_FIND_CODE, str(ctx.seed), str(ctx.n(1, 4))], env=env, stdout=subprocess.PIPE,
+                       stderr=subprocess.PIPE, text=True, timeout=600)
+    line = [ln for ln in p.stdout.split('\n') if ln.startswith('RESULT ')]
+    if p.returncode or not line:
+        st.violation('np_find-stream-crashed', {'stderr': p.stderr[-1500:]})
+        return
+    nl = 0
+    for rec in json.loads(line[-1][7:]):
+        key = rec['key']
+        ctx.case(key, nontrivial=True, kind='np_find (m=1, NumPy)')
+        if rec['sig']:
+            st.violation(rec['sig'], dict(key, **rec.get('detail', {})))
+        for (lane, sv, asec, bits, en, fn, got) in rec['lanes']:
+            nlen = len(lane)
+            _, _, cf, ccs, _, _ = find_forms(nlen)[fn]
+            ce = find_e_forms(nlen)[en][1]
+            gm = ('Some', (('Some', got[1]), got[2])) if got[0] == 'raw' else ('Some', (None, got[1]))
+            if got[0] == 'raw' and sv not in lane:
+                continue        # raw mode, not found: f(ix) unspecified (np_where leaves f(len)); oracle checked nf
+            st.model('find %s (%s) %s (%s) %s %s' % (zlist(lane), ('ASec %s' if asec else 'AInt %s') % zlit(sv), blit(bits), ce,
+                                                   cf, ccs), gm, dict(key, lane=lane, s=sv), 'find')
+            nl += 1
+    ctx.extra['np_find_lanes_to_model'] = nl
 
 
 def _evaluate(ctx, st, ok):
